@@ -2,6 +2,7 @@ import logging
 import numpy as np
 
 from ...refdom import RefQuad
+from ..discrete_field import DiscreteField
 from ..element_line import ElementLinePp
 
 
@@ -33,6 +34,21 @@ class ElementQuadP(ElementLinePp):
         self.dPx, self.dPy = np.zeros((0, 0, 1)), np.zeros((0, 0, 1))
         self.p = p
         self._X = np.array([])
+
+    def gbasis(self, mapping, X, i, tind=None):
+        """Identity transformation; odd edge modes are oriented globally."""
+        field, = super(ElementQuadP, self).gbasis(mapping, X, i, tind)
+        j = i - 4
+        if 0 <= j < 4 * self.facet_dofs and (j % self.facet_dofs) % 2 == 1:
+            # the trace changes sign with the direction of the edge:
+            # orient using the global vertex indices
+            t1, t2 = [(0, 1), (1, 2), (3, 2), (0, 3)][j // self.facet_dofs]
+            t = mapping.mesh.t
+            ori = (1 - 2 * (t[t1] > t[t2]))[slice(None) if tind is None
+                                            else tind]
+            return (DiscreteField(value=ori[:, None] * np.array(field),
+                                  grad=ori[:, None] * field.grad),)
+        return (field,)
 
     def lbasis(self, X, i):
         x, y = X
